@@ -9,6 +9,7 @@ import Model.Ctors
 import Model.Gens
 import Model.Nonce
 import Model.Lifecycle
+import Model.VerifierScalars
 open Model Model.Wire
 
 /-- build the statement-side instance from generator basis ids -/
@@ -257,6 +258,35 @@ def cmdEncode (m : List (String × String)) : Option String := do
   let ri ← (splitOn' (← get m "ri") ",").mapM hexToBytes
   pure s!"hex={bytesToHex (Codec.encode { tag := tag, d1 := d1, a := a, a1 := a1, b := b, r1 := r1, s1 := s1, li := li, ri := ri })}"
 
+def cmdVscalars (m : List (String × String)) : Option String := do
+  let nat (k : String) : Option Nat := do (← get m k).toNat?
+  let n ← nat "n"
+  let mm ← nat "m"
+  let t ← nat "t"
+  let cap ← nat "cap"
+  let p ← natList (← get m "p")
+  let r1 ← scalarOfHex (← get m "r1")
+  let s1 ← scalarOfHex (← get m "s1")
+  let d1 ← scalarList (← get m "d1")
+  let y ← scalarOfHex (← get m "y")
+  let z ← scalarOfHex (← get m "z")
+  let es ← scalarList (← get m "es")
+  let e ← scalarOfHex (← get m "e")
+  let w ← scalarOfHex (← get m "w")
+  let ps := proofScalars n mm t (fun j => ((listFn p j : Nat) : Fl)) r1 s1 (listFn d1) y z es e w
+  let pad := 2 * n * cap - 2 * n * mm
+  pure s!"static={strOfScalars (staticScalars ps.gi ps.hi pad)} dynamic={strOfScalars (ps.dyn ++ (ps.gb ++ [ps.hb]))}"
+
+def cmdAscalars (m : List (String × String)) : Option String := do
+  let nat (k : String) : Option Nat := do (← get m k).toNat?
+  let n ← nat "n"
+  let mm ← nat "m"
+  let cap ← nat "cap"
+  let v ← natList (← get m "v")
+  let p ← natList (← get m "p")
+  let st : List Fl := proverAStatic n mm (2 * n * cap - 2 * n * mm) (fun j => listFn v j - listFn p j)
+  pure s!"static={strOfScalars st}"
+
 def okerr (b : Bool) : String := if b then "ok" else "err"
 
 def cmdCtor (m : List (String × String)) : Option String := do
@@ -302,6 +332,8 @@ def step (line : String) : String :=
       | "rnghist" => cmdRnghist m
       | "lifecycle" => cmdLifecycle m
       | "fields" => cmdFields m
+      | "vscalars" => cmdVscalars m
+      | "ascalars" => cmdAscalars m
       | "encode" => cmdEncode m
       | _ => none
     match r with
